@@ -43,6 +43,12 @@ type C11File struct {
 	Ref   int    `json:"ref"`    // policy whose cutoff (at execution instant RefAt) the row offsets refer to
 	RefAt int    `json:"ref_at"` // seconds after the reference instant R0
 	Seq   int    `json:"seq"`
+	// Same > 0 (files of a write operation only): the file is stored under the
+	// key of the plan's file with that Seq and replaces whatever is there (or
+	// re-creates what retention or compaction removed): a restore, re-import or
+	// recall under the old key, or an in-place rewrite of the file. The rows
+	// are this file's own.
+	Same int `json:"same,omitempty"`
 }
 
 type C11Policy struct {
@@ -148,6 +154,7 @@ func genC11(r *simrt.Rand, tier string) any {
 	for i := 0; i < nf; i++ {
 		p.Files = append(p.Files, genC11File(r, &rid, &seq, p.Policies, ats))
 	}
+	earlier := append([]C11File(nil), p.Files...)
 	for i := 0; i < nops; i++ {
 		op := C11Op{AtS: ats[i], Policy: r.Intn(np)}
 		switch x := r.Intn(100); {
@@ -164,7 +171,18 @@ func genC11(r *simrt.Rand, tier string) any {
 		default:
 			op.Kind = "write"
 			for k, m := 0, 1+r.Intn(3); k < m; k++ {
-				op.Files = append(op.Files, genC11File(r, &rid, &seq, p.Policies, ats))
+				f := genC11File(r, &rid, &seq, p.Policies, ats)
+				if r.Chance(50) {
+					// same key as an earlier file of the plan, other content
+					t := earlier[r.Intn(len(earlier))]
+					f.Same, f.DB, f.Meas, f.Day = t.Seq, t.DB, t.Meas, t.Day
+				}
+				op.Files = append(op.Files, f)
+			}
+			for _, f := range op.Files {
+				if f.Same == 0 {
+					earlier = append(earlier, f)
+				}
 			}
 		}
 		if op.Kind == "exec" || op.Kind == "sched" {
@@ -228,7 +246,7 @@ type c11world struct {
 	hnd        fasthttp.RequestHandler
 	ids        []int64 // policy ids
 	out        *simkit.Outcome
-	rows       map[string][]rowAt // rel path -> rows (cache; files are immutable)
+	rows       map[string][]rowAt // rel path -> rows (cache; dropped when the harness writes under the key)
 	nSeq       int
 	// target is the planned instant of the current operation
 	target time.Time
@@ -258,6 +276,13 @@ func (w *c11world) fileRel(f *C11File) (string, int64) {
 	pol := w.p.Policies[f.Ref%len(w.p.Policies)]
 	cut := w.cutoffFor(pol, w.r0.Add(time.Duration(f.RefAt)*time.Second))
 	base := cut.UnixMicro()
+	if f.Same > 0 {
+		// stored under the key of an earlier file of the plan
+		if t := w.fileBySeq(f.Same); t != nil && t.Same == 0 && len(t.Rows) > 0 {
+			rel, _ := w.fileRel(t)
+			return rel, base
+		}
+	}
 	// directory from the first row's time
 	t0 := time.UnixMicro(base + f.Rows[0].T).UTC()
 	stamp := fileStamp(t0.Add(time.Duration(f.Seq) * time.Millisecond))
@@ -265,6 +290,22 @@ func (w *c11world) fileRel(f *C11File) (string, int64) {
 		return fmt.Sprintf("%s/%s/%04d/%02d/%02d/%s_%s_b1_daily.parquet", f.DB, f.Meas, t0.Year(), int(t0.Month()), t0.Day(), f.Meas, stamp), base
 	}
 	return hourDir(f.DB, f.Meas, t0) + "/" + f.Meas + "_" + stamp + ".parquet", base
+}
+
+func (w *c11world) fileBySeq(seq int) *C11File {
+	for i := range w.p.Files {
+		if w.p.Files[i].Seq == seq {
+			return &w.p.Files[i]
+		}
+	}
+	for oi := range w.p.Ops {
+		for i := range w.p.Ops[oi].Files {
+			if w.p.Ops[oi].Files[i].Seq == seq {
+				return &w.p.Ops[oi].Files[i]
+			}
+		}
+	}
+	return nil
 }
 
 func (w *c11world) request(method, path string, body any) (int, []byte) {
@@ -432,6 +473,10 @@ func runC11(planAny any, cfg simrt.Config) *simkit.Outcome {
 				if err := w.pd.local.Write(context.Background(), rel, f.encode(f.Meas, base)); err != nil {
 					panic(fmt.Sprintf("fixture write: %v", err))
 				}
+				delete(w.rows, rel) // the key may have held other content before
+				if f.Same > 0 {
+					simrt.Count("probe.writes_under_an_earlier_key", 1)
+				}
 			}
 		}
 		ok := w.pd.onNode("setup", func() {
@@ -456,6 +501,7 @@ func runC11(planAny any, cfg simrt.Config) *simkit.Outcome {
 		if !ok {
 			panic("setup died")
 		}
+		lastEnd := simrt.Now()
 		for oi := range p.Ops {
 			op := &p.Ops[oi]
 			// coarse advance here; the exact alignment to the planned instant
@@ -470,6 +516,17 @@ func runC11(planAny any, cfg simrt.Config) *simkit.Outcome {
 			pid := w.ids[op.Policy%len(p.Policies)]
 			switch op.Kind {
 			case "write":
+				for i := range op.Files {
+					if op.Files[i].Same > 0 {
+						// content under an existing key changes a few seconds
+						// after the last activity at the earliest: the new
+						// object carries a modification time of its own
+						if d := lastEnd.Add(2 * time.Second).Sub(simrt.Now()); d > 0 {
+							simrt.AdvanceClock(d)
+						}
+						break
+					}
+				}
 				if !w.pd.onNode("write", func() { ensure(); writeFiles(op.Files) }) {
 					panic("write died")
 				}
@@ -493,6 +550,7 @@ func runC11(planAny any, cfg simrt.Config) *simkit.Outcome {
 			if len(out.Violations) > 0 {
 				return
 			}
+			lastEnd = simrt.Now()
 		}
 	})
 	out.Absorb(res)
@@ -890,6 +948,15 @@ func descC11(planAny any) any {
 		}
 		if o.Fault != nil {
 			s += fmt.Sprintf("!%s#%d", o.Fault.Kind, o.Fault.K)
+		}
+		if o.Kind == "write" {
+			same := 0
+			for _, f := range o.Files {
+				if f.Same > 0 {
+					same++
+				}
+			}
+			s += fmt.Sprintf("[%d files, %d under the key of an earlier file]", len(o.Files), same)
 		}
 		ops = append(ops, s)
 	}
